@@ -12,7 +12,7 @@ tvars == <<tid, l, verdict>>
 
 Tr == Traces[tid]
 Cfg(e) == [kind |-> e.kind, K |-> e.K, Kin |-> e.Kin, failAt |-> e.failAt, maxfun |-> e.maxfun,
-           abEm |-> e.abEm, abRc |-> e.abRc, abCall |-> e.abCall, twoctx |-> e.twoctx]
+           abEm |-> e.abEm, abRc |-> e.abRc, abCall |-> e.abCall, twoctx |-> e.twoctx, redir |-> e.redir]
 
 TInit == /\ tid \in 1..Len(Traces) /\ l = 2 /\ verdict = "ok"
          /\ cfg = Cfg(Traces[tid][1])
